@@ -138,7 +138,9 @@ def run(eng: Engine, ck: Check):
         ios = [x for x in calls_on(f.node, io)]
         ck.floor(f'R-C20-GATE.{q}', min(len(takes), len(ios)), 1)
         ok = len(takes) == 1 and unparse(takes[0].func.value) == f'self.{lim_attr}' and isinstance(parent(takes[0]), ast.Await)
-        ck.ob('R-C20-GATE', f, f.node, f'{q} asks the connection\'s {lim_attr} for tokens', ok, f'{[unparse(t) for t in takes]}', construct=f'{q} limiter')
+        ck.ob('R-C20-GATE', f, f.node, f'{q} takes tokens from `self.{lim_attr}`, read from the connection in every iteration '
+              '(set_*_speed_limit replaces the limiter OBJECT on the connection; a reference hoisted out of the loop keeps a running transfer on the old limit)',
+              ok, f'{[unparse(t) for t in takes]}', construct=f'{q} limiter')
         for x in ios:
             amount = x.args[0] if x.args else None
             src = expand_aliases(f, amount) if amount is not None else None
